@@ -88,7 +88,7 @@ def h_to_ref(ctx):
     zipv = ctx.deviate("zip", [None, "DEF"])
     aad = ctx.deviate("aad", [None, b"aad!", b"a", b"abc"]) if form != "compact" else None
     apuv = ctx.deviate("apu/apv", [None, ("QWxpY2U", "Qm9i")]) if alg.startswith("ECDH") else None
-    own_p2 = ctx.deviate("caller_p2s_p2c", [False, True]) if alg.startswith("PBES2") else False
+    own_p2 = ctx.deviate("caller_p2s_p2c", [False, 1000, 999, 8]) if alg.startswith("PBES2") else False
     pname, plaintext = ctx.deviate("plaintext", c04.plaintexts())
     jwk = scen.key(kind)
     sender_jwk = scen.key(kind, 1) if is_1pu else None
@@ -99,7 +99,7 @@ def h_to_ref(ctx):
         prot["apu"], prot["apv"] = apuv
     if own_p2:
         prot["p2s"] = b64.enc(P2S)
-        prot["p2c"] = 1000
+        prot["p2c"] = own_p2
     pub = A.jkey(jwk, "dict", private=(jwk["kty"] == "oct"))
     sender_priv = A.jkey(sender_jwk, "dict") if is_1pu else None
     fam = alg.split("+")[0] if alg.startswith(("ECDH", "PBES2")) else (alg if not alg.endswith("GCMKW") else "GCMKW")
@@ -154,6 +154,35 @@ def h_ref_multi(ctx):
     return Outcome("ok" if not vs else "bad", vs, nontrivial=("multi", i, j, enc, aad))
 
 
+def h_zip_framing(ctx):
+    """zip=DEF: joserfc's output is a complete raw DEFLATE stream for every plaintext incl. the empty one; foreign raw streams decrypt."""
+    scen.register_drafts()
+    enc = ctx.choose("enc", ["A128GCM", "A128CBC-HS256", "C20P"])
+    form = ctx.choose("form", c04.FORMS)
+    direction = ctx.choose("direction", ["joserfc->ref", "ref->joserfc"])
+    name, pt = ctx.choose("plaintext", [("empty", b""), ("one", b"a"), ("nul", b"\x00"), ("small", b"hello hello hello"), ("k1", bytes(range(256)) * 4)])
+    kind = "oct%d" % ENC[enc][1]
+    jwk = scen.key(kind)
+    prot = {"alg": "dir", "enc": enc, "zip": "DEF"}
+    vs = []
+    if direction == "joserfc->ref":
+        r = scen.jwe_encrypt(form, dict(prot), pt, A.jkey(jwk, "dict"), ["dir", enc, "DEF"])
+        if not r.ok:
+            vs.append(viol("encryption with zip=DEF fails", f"{enc} {form} plaintext {name}: {r.exc!r}"))
+        else:
+            try:
+                if rjwe.decrypt(r.value, jwk)[0] != pt:
+                    vs.append(viol("reference inflates joserfc's DEF output to a different plaintext", f"{enc} {form} {name}"))
+            except RefError as e:
+                vs.append(viol(f"joserfc's zip=DEF output is not a complete raw DEFLATE stream ({name} plaintext)", f"{enc} {form}: {e!r}"))
+    else:
+        tok = rjwe.encrypt(prot, pt, [{"jwk": jwk}], form=form, rand=rjwe.Drbg(repr((enc, form, name)).encode()))
+        d = scen.jwe_decrypt(tok, A.jkey(jwk, "dict"), ["dir", enc, "DEF"])
+        if not d.ok or d.value[0] != pt:
+            vs.append(viol(f"joserfc cannot decrypt a foreign zip=DEF JWE ({name} plaintext)", f"{enc} {form}: {d.exc!r}"))
+    return Outcome(f"zip:{'ok' if not vs else 'bad'}", vs, nontrivial=(enc, form, direction, name))
+
+
 def _vectors():
     out = []
     fx = json.load(open(os.path.join(VEC, "jwe_rfc7520.json")))
@@ -194,8 +223,10 @@ _pv = Part("rfc-vectors", h_vectors, split_depth=1)
 _pv.single_bucket_ok = True
 _pm = Part("ref-multi-recipient", h_ref_multi, split_depth=2)
 _pm.single_bucket_ok = True
+_pz = Part("zip-framing", h_zip_framing, split_depth=2)
+_pz.single_bucket_ok = True
 PARTS = [
     Part("ref-to-joserfc", h_from_ref, bound={"quick": 1, "thorough": 2}, split_depth=2, budget={"quick": 150, "thorough": 2400}),
     Part("joserfc-to-ref", h_to_ref, bound={"quick": 1, "thorough": 2}, split_depth=2, budget={"quick": 150, "thorough": 2400}),
-    _pm, _pv,
+    _pm, _pv, _pz,
 ]
